@@ -11,6 +11,7 @@ import numpy as np
 import catalog
 from common import Ctx
 from props.c13 import check_against_model, elem_json
+import wraplib
 from wraplib import first_diff, sample_action, tree_close, ts_fields
 
 
@@ -36,8 +37,10 @@ def run(ctx: Ctx, extended: bool = False) -> None:
     drv = ctx.get_driver()
     steps = (14 if ctx.quick else 60) * (2 if extended else 1)
     patterns = {"none": 0, "some": 0, "all": 0}
-    for e in (catalog.entries('thorough' if extended else ctx.tier) if (extended or not ctx.quick) else catalog.one_per_class(ctx.tier, ctx.seed)):
-        env = e.build()
+    ents = catalog.entries('thorough' if extended else ctx.tier) if (extended or not ctx.quick) else catalog.one_per_class(ctx.tier, ctx.seed)
+    for e, stk in wraplib.stack_variants(ents, ctx.quick and not extended, ctx.seed):
+        env = wraplib.stacked(e.build()) if stk else e.build()
+        ctx.count("stacked_configs" if stk else "bare_configs")
         flag = bool((sum(map(ord, e.cid)) + ctx.seed) % 2)
         B = [1, 2, 3, 5, 8][(sum(map(ord, e.cid)) + ctx.seed) % 5] if ctx.quick else int(rng.integers(1, 9))
         vw = VmapWrapper(env)
@@ -48,7 +51,7 @@ def run(ctx: Ctx, extended: bool = False) -> None:
         arstep = jax.jit(ar.step)
         seed = int(rng.integers(1 << 30))
         keys = jax.random.split(jax.random.PRNGKey(seed), B)
-        info = {"env": e.cid, "batch": B, "next_obs_in_extras": flag, "seed": seed}
+        info = {"env": e.cid, "batch": B, "next_obs_in_extras": flag, "seed": seed, "behind_user_wrapper": stk}
         # --- VmapWrapper: reset and one step, index-wise
         bs, bt = jax.jit(vw.reset)(keys)
         for i in range(B):
